@@ -126,8 +126,8 @@ For every wrapper `W` (spec: `Spec/Tlb/Wrappers.lean`, from the contracts' stora
 * `c15_<w>_serialize`   -- `W.serialize` never fails for fields in range and returns the cell of the spec encoding;
 * `c15_<w>_decodes`     -- the spec decoder reads that cell back to the value;
 * `c15_<w>_own_parser`  -- `W.deserialize` returns what the spec decoder returns on EVERY cell the decoder accepts.
-The two half-implemented wrappers (finding F23) get the statements that do hold and a theorem that says exactly
-what does not. -/
+`HighloadWalletData` and `WalletMessage` are modelled after the fix of F23 (before it the first dropped `old_queries` and the
+second could not be parsed); they additionally get the full round trip that used to fail. -/
 
 /-! ### `WalletV3Data` -/
 
@@ -178,67 +178,48 @@ theorem c15_wallet_v4_decodes (ops : CellOps R) (hl : ops.Lawful) (w : WalletV4 
 theorem c15_wallet_v4_own_parser (ops : CellOps R) (c : R) (w : WalletV4 R) (h : decodeWalletV4 ops c = some w) :
     Message.deserializeWalletV4 ops c = some w := parse_of_ref ops ref_loadWalletV4 h
 
-/-! ### `HighloadWalletData` (finding F23: `serialize` drops `old_queries`) -/
+/-! ### `HighloadWalletData` (after the fix of F23: `serialize` used to drop `old_queries`) -/
 
-/-- `HighloadWalletData.serialize` never fails for fields in range, but what it writes is the encoding of the value
-WITH `old_queries` EMPTIED: 353 bits, no reference. -/
+/-- `HighloadWalletData.serialize` never fails for fields in range and is
+`wallet_id:uint32 last_cleaned:uint64 public_key:bits256 old_queries:(HashmapE 64 …)`: 353 bits, the dictionary root (if any)
+as the only reference. -/
 theorem c15_highload_serialize (ops : CellOps R) (ht : ops.Total) (w : Highload R)
     (hi : 0 ≤ w.walletId ∧ w.walletId < 2 ^ 32) (hc : 0 ≤ w.lastCleaned ∧ w.lastCleaned < 2 ^ 64)
     (hk : w.publicKey.length = 32 ∧ Bytes.WF w.publicKey) :
-    ∃ ch : Chunk R, encHighload { w with oldQueries := none } = some ch ∧ ch.1.length = 353 ∧ ch.2.length = 0 ∧
+    ∃ ch : Chunk R, encHighload w = some ch ∧ ch.1.length = 353 ∧ ch.2.length ≤ 1 ∧
       Message.serializeHighload ops w = ops.make ch.1 ch.2 ∧ (Message.serializeHighload ops w).isSome := by
-  have he : encHighload { w with oldQueries := none } =
-      some (natToBits 32 w.walletId.toNat ++ (natToBits 64 w.lastCleaned.toNat ++ (bytesToBits w.publicKey ++ [false])),
-        ([] ++ ([] ++ ([] ++ [])) : List R)) := by
-    simp only [encHighload, eUint_of_range 32 _ hi.1 hi.2, eUint_of_range 64 _ hc.1 hc.2, eBytes_of 32 _ hk.1 hk.2,
-      eMaybeRef, eBool, Enc.cat]
-  have hlen : (natToBits 32 w.walletId.toNat ++ (natToBits 64 w.lastCleaned.toNat ++ (bytesToBits w.publicKey ++ [false]))).length = 353 := by
-    simp [natToBits_length, bytesToBits_length, hk.1]
-  have hser := cellOf_of_appends ops (appends_highloadB w) he ⟨by rw [hlen]; omega, by simp⟩
-  exact ⟨_, he, hlen, by simp, hser, by rw [Message.serializeHighload, hser]; exact ht _ _ (by rw [hlen]; omega) (by simp)⟩
+  obtain ⟨pc, hp, hp1, hp2⟩ := eMaybeRef_some w.oldQueries
+  have he : encHighload w =
+      some (natToBits 32 w.walletId.toNat ++ (natToBits 64 w.lastCleaned.toNat ++ (bytesToBits w.publicKey ++ pc.1)),
+        [] ++ ([] ++ ([] ++ pc.2))) := by
+    simp only [encHighload, eUint_of_range 32 _ hi.1 hi.2, eUint_of_range 64 _ hc.1 hc.2, eBytes_of 32 _ hk.1 hk.2, hp, Enc.cat]
+  have hlen : (natToBits 32 w.walletId.toNat ++ (natToBits 64 w.lastCleaned.toNat ++ (bytesToBits w.publicKey ++ pc.1))).length = 353 := by
+    simp [natToBits_length, bytesToBits_length, hk.1, hp1]
+  have hr : (([] : List R) ++ ([] ++ ([] ++ pc.2))).length ≤ 1 := by simpa using hp2
+  have hser := cellOf_of_appends ops (appends_highloadB w) he ⟨by rw [hlen]; omega, Nat.le_trans hr (by omega)⟩
+  exact ⟨_, he, hlen, hr, hser, by rw [Message.serializeHighload, hser]; exact ht _ _ (by rw [hlen]; omega) (Nat.le_trans hr (by omega))⟩
 
-/-- the spec decoder inverts the spec encoder for every value, with or without old queries -/
-theorem c15_highload_spec_roundtrip (ops : CellOps R) (hl : ops.Lawful) (w : Highload R) {ch : Chunk R} {c : R}
+theorem c15_highload_decodes (ops : CellOps R) (hl : ops.Lawful) (w : Highload R) {ch : Chunk R} {c : R}
     (h : encHighload w = some ch) (hc : ops.make ch.1 ch.2 = some c) : decodeHighload ops c = some w :=
   decode_of_rt ops hl (rt_highload w) h hc
 
-/-- the cell `HighloadWalletData.serialize` returns decodes to the value with `old_queries` emptied -/
-theorem c15_highload_decodes (ops : CellOps R) (hl : ops.Lawful) (ht : ops.Total) (w : Highload R)
-    (hi : 0 ≤ w.walletId ∧ w.walletId < 2 ^ 32) (hc : 0 ≤ w.lastCleaned ∧ w.lastCleaned < 2 ^ 64)
-    (hk : w.publicKey.length = 32 ∧ Bytes.WF w.publicKey) :
-    ∃ c, Message.serializeHighload ops w = some c ∧ decodeHighload ops c = some { w with oldQueries := none } := by
-  obtain ⟨ch, he, _, _, hser, hsome⟩ := c15_highload_serialize ops ht w hi hc hk
-  obtain ⟨c, hcell⟩ := Option.isSome_iff_exists.mp hsome
-  exact ⟨c, hcell, c15_highload_spec_roundtrip ops hl _ he (hser ▸ hcell)⟩
-
-/-- **F23, stated exactly**: the serialised cell denotes the value it was made from IF AND ONLY IF `old_queries` is
-empty.  (The full-strength statement -- `decodeHighload (serialize w) = some w` for every `w` in range -- is false for
-the library.) -/
-theorem c15_highload_round_trip_iff (ops : CellOps R) (hl : ops.Lawful) (ht : ops.Total) (w : Highload R)
-    (hi : 0 ≤ w.walletId ∧ w.walletId < 2 ^ 32) (hc : 0 ≤ w.lastCleaned ∧ w.lastCleaned < 2 ^ 64)
-    (hk : w.publicKey.length = 32 ∧ Bytes.WF w.publicKey) :
-    (∃ c, Message.serializeHighload ops w = some c ∧ decodeHighload ops c = some w) ↔ w.oldQueries = none := by
-  obtain ⟨c, hs, hd⟩ := c15_highload_decodes ops hl ht w hi hc hk
-  constructor
-  · rintro ⟨c', hs', hd'⟩
-    rw [hs] at hs'
-    cases hs'
-    rw [hd] at hd'
-    have := congrArg (fun o => o.map Highload.oldQueries) hd'
-    simpa using this.symm
-  · intro hq
-    refine ⟨c, hs, ?_⟩
-    rw [hd]
-    cases w
-    simp_all
-
-/-- `HighloadWalletData.deserialize` reads every valid cell as the spec decoder does (the dictionary as its root cell;
-its VALUES are then lost in `HashMap.parse`, because `WalletMessage.deserialize` is a stub -- see
-`c15_wallet_message_own_parser_stub`). -/
+/-- `HighloadWalletData.deserialize` reads every valid cell as the spec decoder does (the dictionary as its root cell; each
+value of it is read by `WalletMessage.deserialize`, see `c15_wallet_message_own_parser`) -/
 theorem c15_highload_own_parser (ops : CellOps R) (c : R) (w : Highload R) (h : decodeHighload ops c = some w) :
     Message.deserializeHighload ops c = some w := parse_of_ref ops ref_loadHighload h
 
-/-! ### `WalletMessage` (finding F23: `deserialize` is a stub) -/
+/-- **full round trip, old queries included** (this is the statement that failed before the fix of F23) -/
+theorem c15_highload_round_trip (ops : CellOps R) (hl : ops.Lawful) (ht : ops.Total) (w : Highload R)
+    (hi : 0 ≤ w.walletId ∧ w.walletId < 2 ^ 32) (hc : 0 ≤ w.lastCleaned ∧ w.lastCleaned < 2 ^ 64)
+    (hk : w.publicKey.length = 32 ∧ Bytes.WF w.publicKey) :
+    ∃ c, Message.serializeHighload ops w = some c ∧ decodeHighload ops c = some w ∧
+      Message.deserializeHighload ops c = some w := by
+  obtain ⟨ch, he, _, _, hser, hsome⟩ := c15_highload_serialize ops ht w hi hc hk
+  obtain ⟨c, hcell⟩ := Option.isSome_iff_exists.mp hsome
+  have hd := c15_highload_decodes ops hl w he (hser ▸ hcell)
+  exact ⟨c, hcell, hd, c15_highload_own_parser ops c w hd⟩
+
+/-! ### `WalletMessage` (after the fix of F23: `deserialize` used to be a stub) -/
 
 /-- `WalletMessage(send_mode, message).serialize()` with `send_mode` < 256 and a message within the bound of
 `c15_never_overflows` never fails and is `send_mode:uint8 message:^(Message Any)`, the reference holding one of the
@@ -264,15 +245,24 @@ theorem c15_wallet_message_decodes (ops : CellOps R) (hl : ops.Lawful) (w : Wall
     decodeWalletMsg ops c = some w :=
   decode_of_rt ops hl (rt_walletMsg ops hl w hwf initRef bodyRef) h hc
 
-/-- **F23, stated exactly**: `WalletMessage.deserialize` returns Python `None` for every cell, so it agrees with the
-spec decoder on NO cell that is a wallet message.  (The full-strength statement
-`decodeWalletMsg ops c = some w → deserializeWalletMsg ops c = some (some w)` is false for the library.) -/
-theorem c15_wallet_message_own_parser_stub (ops : CellOps R) (c : R) :
-    Message.deserializeWalletMsg ops c = some none ∧
-      ∀ w, decodeWalletMsg ops c = some w → Message.deserializeWalletMsg ops c ≠ some (some w) := by
-  constructor
-  · rfl
-  · intro w _ h; simp [Message.deserializeWalletMsg] at h
+/-- `WalletMessage.deserialize` returns what the spec decoder returns on every cell that is a wallet message (whatever
+`Either` choices the referenced message uses) -/
+theorem c15_wallet_message_own_parser (ops : CellOps R) (c : R) (w : WalletMsg R) (h : decodeWalletMsg ops c = some w) :
+    Message.deserializeWalletMsg ops c = some w := parse_of_ref ops (ref_loadWalletMsg ops) h
+
+/-- round trip of `WalletMessage` (this is the statement that failed before the fix of F23) -/
+theorem c15_wallet_message_round_trip (ops : CellOps R) (hl : ops.Lawful) (ht : ops.Total) (w : WalletMsg R)
+    (hwf : w.message.info.WF) (hmode : 0 ≤ w.sendMode ∧ w.sendMode < 256)
+    {ib : Bits} {ir : List R} (hinfo : encInfo w.message.info = some (ib, ir))
+    (hI : ib.length + (if w.message.init.isSome then 3 else 2) ≤ 1023)
+    (hinit : ∀ s, w.message.init = some s → (encStateInit s).isSome)
+    (hbody : w.message.body.1.length ≤ 1023 ∧ w.message.body.2.length ≤ 4) :
+    ∃ c, Message.serializeWalletMsg ops w = some c ∧ decodeWalletMsg ops c = some w ∧
+      Message.deserializeWalletMsg ops c = some w := by
+  obtain ⟨i, b, ch, he, _, _, hser, hsome⟩ := c15_wallet_message_serialize ops hl ht w hmode hinfo hI hinit hbody
+  obtain ⟨c, hc⟩ := Option.isSome_iff_exists.mp hsome
+  have hd := c15_wallet_message_decodes ops hl w hwf i b he (hser ▸ hc)
+  exact ⟨c, hc, hd, c15_wallet_message_own_parser ops c w hd⟩
 
 /-! ### `HashUpdate` -/
 
@@ -534,49 +524,26 @@ example : ∃ c, Message.serializeWalletV4 tops w4 = some c ∧ decodeWalletV4 t
   have hd := c15_wallet_v4_decodes tops tops_lawful w4 he (hser ▸ hc)
   exact ⟨c, hc, hd, c15_wallet_v4_own_parser tops c w4 hd⟩
 
-/-- a highload wallet with a (non-empty) query dictionary ... -/
+/-- a highload wallet with a (non-empty) query dictionary round-trips (before the fix of F23 it did not) -/
 def hq : Highload T := ⟨1, 2 ^ 64 - 1, key7, some leaf⟩
 
-/-- ... serialises, but NOT to a cell that denotes it (F23); with the dictionary emptied it does -/
-example : (Message.serializeHighload tops hq).isSome = true ∧
-    (¬ ∃ c, Message.serializeHighload tops hq = some c ∧ decodeHighload tops c = some hq) ∧
-    (∃ c, Message.serializeHighload tops { hq with oldQueries := none } = some c ∧
-      decodeHighload tops c = some { hq with oldQueries := none }) := by
-  have h1 := c15_highload_round_trip_iff tops tops_lawful tops_total hq (by decide) (by decide) (by decide)
-  have h2 := c15_highload_round_trip_iff tops tops_lawful tops_total { hq with oldQueries := none } (by decide) (by decide) (by decide)
-  obtain ⟨_, _, _, _, _, hsome⟩ := c15_highload_serialize tops tops_total hq (by decide) (by decide) (by decide)
-  exact ⟨hsome, fun h => by simpa [hq] using h1.mp h, h2.mpr rfl⟩
-
-/-- the spec itself round-trips the value WITH old queries (the defect is in the library, not in the layout) -/
-example : ∃ c, encCell tops (encHighload hq) = some c ∧ decodeHighload tops c = some hq ∧
-    Message.deserializeHighload tops c = some hq := by
-  obtain ⟨ch, h⟩ := Option.isSome_iff_exists.mp (show (encHighload hq).isSome = true by decide +kernel)
-  have hfit : ch.1.length ≤ 1023 ∧ ch.2.length ≤ 4 := by
-    have h1 : Enc.nbits (encHighload hq) ≤ 32 + (64 + (8 * 32 + 1)) :=
-      nbits_cat_le (nbits_eUint _ _) (nbits_cat_le (nbits_eUint _ _) (nbits_cat_le (nbits_eBytes _ _) (nbits_eMaybeRef _)))
-    have h2 : Enc.nrefs (encHighload hq) ≤ 0 + (0 + (0 + 1)) :=
-      nrefs_cat_le (nrefs_eUint _ _) (nrefs_cat_le (nrefs_eUint _ _) (nrefs_cat_le (nrefs_eBytes _ _) (nrefs_eMaybeRef _)))
-    rw [(enc_some_sizes h).1] at h1; rw [(enc_some_sizes h).2] at h2; omega
-  have hc : encCell tops (encHighload hq) = some (T.mk ch.1 ch.2) := by rw [encCell_eq tops h hfit]; rfl
-  have hd := c15_highload_spec_roundtrip tops tops_lawful hq h (c := T.mk ch.1 ch.2) rfl
-  exact ⟨_, hc, hd, c15_highload_own_parser tops _ hq hd⟩
+example : ∃ c, Message.serializeHighload tops hq = some c ∧ decodeHighload tops c = some hq ∧
+    Message.deserializeHighload tops c = some hq :=
+  c15_highload_round_trip tops tops_lawful tops_total hq (by decide) (by decide) (by decide)
 
 /-- a wallet message around `m0` -/
 def wm0 : WalletMsg T := ⟨3, m0⟩
 
 example : ∃ c, Message.serializeWalletMsg tops wm0 = some c ∧ decodeWalletMsg tops c = some wm0 ∧
-    Message.deserializeWalletMsg tops c = some none := by
+    Message.deserializeWalletMsg tops c = some wm0 := by
   obtain ⟨⟨ib, ir⟩, h⟩ := Option.isSome_iff_exists.mp (show (encInfo m0.info).isSome = true by decide +kernel)
   have hlen : Enc.nbits (encInfo m0.info) + 3 ≤ 1023 := by decide +kernel
   rw [(enc_some_sizes h).1] at hlen
   have hwf : m0.info.WF := by simp [m0, Info.WF, AddrWF]
   have hinit : ∀ s, m0.init = some s → (encStateInit s).isSome := by
     intro s hs; simp [m0] at hs; subst hs; decide +kernel
-  obtain ⟨i, b, ch, he, _, _, hser, hsome⟩ := c15_wallet_message_serialize tops tops_lawful tops_total wm0 (by decide) h
+  exact c15_wallet_message_round_trip tops tops_lawful tops_total wm0 hwf (by decide) h
     (by simpa [wm0, m0] using hlen) hinit (by simp [wm0, m0])
-  obtain ⟨c, hc⟩ := Option.isSome_iff_exists.mp hsome
-  exact ⟨c, hc, c15_wallet_message_decodes tops tops_lawful wm0 hwf i b he (hser ▸ hc),
-    (c15_wallet_message_own_parser_stub tops c).1⟩
 
 def hu0 : HashUpd := ⟨key7, List.replicate 32 255⟩
 
